@@ -263,6 +263,9 @@ func (s *slice) Swap(i, j int) {
 }
 
 func keepIf(fm *Frame, f Callable, inputs Inputs) error {
+	if f == nil {
+		return errNilArg("function", "callable")
+	}
 	var err error
 	inputs(func(v any) {
 		if err != nil {
